@@ -12,6 +12,7 @@ import (
 	"context"
 	"encoding/json"
 	"fmt"
+	"os"
 	"time"
 
 	"github.com/codenotary/immudb/embedded/sql"
@@ -161,7 +162,7 @@ func Run(c *fw.Ctx) {
 	c.Assume("the AUTO_INCREMENT counter is not given back by ROLLBACK TO SAVEPOINT (as PostgreSQL sequences); savepoint names are unique and never reused after ROLLBACK TO / RELEASE")
 	c.Assume("a failed statement aborts the whole transaction (Engine.ExecPreparedStmts cancels it)")
 	r := c.Rand("c13/cases")
-	n := c.N(300, 5000)
+	n := c.N(300, 15000)
 	var cases [][]byte
 	for i := 0; i < n; i++ {
 		cs := caseSpec{Idx: i, Sessions: 1 + r.IntN(6), TxPer: 4 + r.IntN(5), Variant: r.IntN(4)}
@@ -171,6 +172,17 @@ func Run(c *fw.Ctx) {
 		cs.DDL = i%2 == 1
 		b, _ := json.Marshal(cs)
 		cases = append(cases, b)
+	}
+	if only := os.Getenv("VERIF_C13_ONLY"); only != "" { // development aid: run one case index many times
+		var sel [][]byte
+		for i, b := range cases {
+			if fmt.Sprint(i) == only {
+				for j := 0; j < 400; j++ {
+					sel = append(sel, b)
+				}
+			}
+		}
+		cases = sel
 	}
 	c.RunIsolated("c13-engine", cases, fw.CasesOpts{Workers: 14, CaseTimout: 10 * time.Minute})
 }
